@@ -159,4 +159,5 @@ def build(ub, algebra_text):
     wcfg = {"receivers": {"ctx": "node"}, "no_canary": True}
     for w in ("eval_bv_expr", "eval_array_expr", "eval_expr"):
         ub.emit_fn(EVAL, w, "verify", cfg=wcfg)
+    ub.pin_rest_of_file(EVAL)   # frame: the other functions of the file (DESIGN 11.12)
     ub.out("} // verus!\nfn main() {}\n")
